@@ -74,15 +74,15 @@ impl Type {
     }
 
     pub fn is_bits(&self) -> bool {
-        matches!(self, Self::Bits(_) | Self::Uninitialized)
+        matches!(self, Self::Bits(_) | Self::Uninitialized | Self::Unknown)
     }
 
     pub fn is_list(&self) -> bool {
-        matches!(self, Self::List(_) | Self::Uninitialized)
+        matches!(self, Self::List(_) | Self::Uninitialized | Self::Unknown)
     }
 
     pub fn is_record(&self) -> bool {
-        matches!(self, Self::Record(_, _) | Self::Uninitialized)
+        matches!(self, Self::Record(_, _) | Self::Uninitialized | Self::Unknown)
     }
 }
 
